@@ -165,6 +165,19 @@ impl Run {
     /// Write evidence, print protocol lines, and return the exit code.
     pub fn finish(mut self) -> i32 {
         let wall = self.elapsed();
+        // panics that escaped the per-case guards
+        for (idx, msg) in std::mem::take(&mut *crate::par::WORKER_PANICS.lock().unwrap()) {
+            let file = panic_site_file(&msg);
+            if msg.contains("/verif/") {
+                self.machinery_error(format!("harness panic at enumeration index {idx}: {msg}"));
+            } else {
+                self.violation(Violation {
+                    signature: format!("panic|while-handling-a-result|{file}"),
+                    what: format!("the implementation panicked while the harness was rendering / converting / comparing a result (enumeration index {idx}): {msg}"),
+                    case: json!({"engine":"worker-panic","index":idx,"panic":msg}),
+                });
+            }
+        }
         let violations = std::mem::take(&mut *self.violations.lock().unwrap());
         let mach = std::mem::take(&mut *self.machinery_errors.lock().unwrap());
         let known = load_known(&self.property);
